@@ -292,9 +292,11 @@ def openDir (K : Inflate) (files : List File) : Outcome Reader :=
 
 abbrev Tile := (Nat × Nat × Nat) × Bytes
 
-/-- `TarTilesWriter`: member `./z/x/y.<fmt>[.<comp>]` per streamed tile, level boxes in ascending zoom -/
+/-- `TarTilesWriter`: one member per streamed tile, level boxes in ascending zoom.  The writer passes
+    `./z/x/y.<fmt>[.<comp>]` to `tar::Builder::append_data`, which drops `.` components when it
+    copies the path into the header: the stored member name is `z/x/y.<fmt>[.<comp>]`. -/
 def tarNames (f : TileFormat) (c : TComp) (tiles : List Tile) : List (List Char) :=
-  tiles.map fun t => '.' :: '/' :: formatName t.1.2.2 t.1.1 t.1.2.1 f c
+  tiles.map fun t => formatName t.1.2.2 t.1.1 t.1.2.1 f c
 
 def dirNames (f : TileFormat) (c : TComp) (tiles : List Tile) : List (List Char) :=
   tiles.map fun t => formatName t.1.2.2 t.1.1 t.1.2.1 f c
